@@ -138,8 +138,10 @@ def replay_main(path):
             import traceback
             info = {"reproduced": False, "error": f"replay raised {asp}: {str(e)[:300]}",
                     "where": traceback.format_exc()[-800:]}
-    print(json.dumps(info))
-    return 0 if info["reproduced"] else 4
+    if info["reproduced"]:
+        print(f"VIOLATION property={prop} replay={path}")
+    print(json.dumps(info))          # last line: machine-readable outcome (read by the runner)
+    return 1 if info["reproduced"] else 0
 
 
 def main(argv):
